@@ -83,6 +83,26 @@ CLAIMED.update({
             VM_NOTE),
 })
 
+OBS_NOTE = VM_NOTE + " The observer regains control between any two instructions through the repository's own Debugger (single-stepping; C32 separately checks that this does not change results). Instructions whose operands name $cgas/$ggas are skipped and counted (operand read vs gas charge order is not pinned)."
+CLAIMED.update({
+    "C24": ("vm", "DESIGN.md §6 C24, §4.1",
+            "deterministic simulation: observer replica single-steps generated call trees; whole-memory diff after every instruction against the ownership registers, plus panic-reason prediction for the load/store/copy family",
+            "Every byte changed by an instruction must lie in the frame's stack or heap region (before or after growth) or in the VM's own writes of that opcode (call frame + code, loaded code, balance entries, outputs); LB/LW/SB/SW/MCL/MCLI/MCP/MCPI/MEQ panics are predicted from the accessibility/ownership model; ALOC'd bytes must be zero. Sampling, not enumeration.",
+            OBS_NOTE + " Heap above 256 KiB is not diffed (counted)."),
+    "C25": ("vm", "DESIGN.md §6 C25, §4.1",
+            "deterministic simulation: observer replica single-steps generated programs with loops, JAL subroutines and boundary-biased jump operands; $pc compared after every instruction with an unbounded-integer model of the 12 jump instructions, CALL entry and return targets",
+            "Per step: taken/untaken target, MemoryOverflow iff the target leaves memory, link register, +4 for every other completed instruction, execution only inside [$is,$ssp), fetch panics only outside it. Sampling, not enumeration.",
+            OBS_NOTE),
+    "C30": ("vm", "DESIGN.md §6 C30, §4.1, §9 F-3",
+            "deterministic simulation: a recording InterpreterStorage seam attributes every contract-table access to the single-stepped instruction that made it; contract-addressing instructions are aimed at input, deployed-non-input and absent contracts",
+            "Every ContractsRawCode / ContractsState / ContractsAssets access (including contains_key and size_of_value) must name an input contract, and the active context is always an input contract. One known finding (F-3: CALL probes the target's code size before the inputs check) is listed and reported as KNOWN-FINDING. Sampling, not enumeration.",
+            OBS_NOTE + " Scope: script transactions; predicate execution cannot reach contract tables by type (PredicateStorage) and is exercised by C20's engine."),
+    "C34": ("vm", "DESIGN.md §6 C34, §4.1",
+            "deterministic simulation: observer replica snapshots registers and the caller's memory region at every CALL and compares at the matching return; call frame bytes and the callee's first state are decoded and checked",
+            "Frame layout (callee id, asset id, saved registers, code size, a, b), callee $fp/$ssp/$sp/$is/$pc/$bal/$flag, register restore except $cgas/$ggas/$ret/$retl/$hp with $pc+4, caller region byte-identical, callee heap readable after return. Sampling, not enumeration.",
+            OBS_NOTE),
+})
+
 PLANNED = {
 }
 
